@@ -393,6 +393,52 @@ func init() {
 		return nil, callPushed
 	}
 
+	// sync.Pool: Put keeps the object, Get hands back the most recently Put one (the per-P
+	// private slot of the real pool) and calls New only when nothing is kept. The garbage
+	// collector emptying the pool is not modelled (it gives the New path).
+	poolItems := func(e *Engine, p Ptr) *[]Value {
+		if e.extra["pool"] == nil {
+			e.extra["pool"] = map[nkPtr]*[]Value{}
+		}
+		m := e.extra["pool"].(map[nkPtr]*[]Value)
+		k := nkPtr{p.obj, p.off}
+		if m[k] == nil {
+			m[k] = &[]Value{}
+		}
+		return m[k]
+	}
+	intrinsics["(*sync.Pool).Put"] = func(c *callCtx, a []Value) (Value, callStatus) {
+		if x, ok := a[1].(Iface); ok && x.IsNil() {
+			return nil, callDone
+		}
+		l := poolItems(c.e, a[0].(Ptr))
+		*l = append(*l, a[1])
+		return nil, callDone
+	}
+	intrinsics["(*sync.Pool).Get"] = func(c *callCtx, a []Value) (Value, callStatus) {
+		p := a[0].(Ptr)
+		l := poolItems(c.e, p)
+		if n := len(*l); n > 0 {
+			v := (*l)[n-1]
+			*l = (*l)[:n-1]
+			return v, callDone
+		}
+		ct := c.fn.Signature.Recv().Type().(*types.Pointer).Elem()
+		st := ct.Underlying().(*types.Struct)
+		lay := layoutOf(ct)
+		for i := 0; i < st.NumFields(); i++ {
+			if st.Field(i).Name() == "New" {
+				f, _ := p.obj.get(p.off + lay.offsets[i]).(*Closure)
+				if f == nil {
+					return Iface{}, callDone
+				}
+				c.e.invoke(c.g, c.fr, f, nil, c.in, func(v Value) { c.finish(v) }, modeNormal)
+				return nil, callPushed
+			}
+		}
+		return Iface{}, callDone
+	}
+
 	// ---------------- runtime, os, time
 	intrinsics["os.Exit"] = func(c *callCtx, a []Value) (Value, callStatus) {
 		panic(pathEnd{kind: endAbort, msg: "os.Exit(" + termArg(a[0]).String() + ")"})
